@@ -465,10 +465,17 @@ int parse_directives(AsmContext *asm_context)
     char token[TOKENLEN];
     //int token_type;
 
+    // Keep the name as text even if it's already a symbol.
+    asm_context->ignore_symbols = 1;
     tokens_get(asm_context, token, TOKENLEN);
-    asm_context->symbols.append(
-      token,
-      asm_context->address / asm_context->bytes_per_address);
+    asm_context->ignore_symbols = 0;
+
+    if (asm_context->symbols.append(
+          token,
+          asm_context->address / asm_context->bytes_per_address) != 0)
+    {
+      return -1;
+    }
 
     if (asm_context->symbols.scope_start() != 0)
     {
